@@ -204,6 +204,13 @@ def corr_lookups(ctx):
             net = gen.build(sp)
             body.append(cm.lookups_case(net))
             kept.append(sp)
+            st = drive.psetup()
+            st.init_all_result_tables(net)
+            st.initialize_pit(net)
+            bad = mon.pi_valve_structure(net)
+            if bad:
+                ctx.violation({"fn": "Valve.create_pit_branch_entries", "what": "pi_valve_attachment"}, bad,
+                              {"kind": "pi_family", "net": sp, "options": {"use_numba": False}})
         except Exception as e:  # noqa: BLE001
             ctx.broken("correspondence", "create_lookups harness", repr(e))
             return
@@ -254,6 +261,7 @@ def run(ctx):
     cx.corr_pit_relabel(ctx)
     tm.append(time.time())
     monitor_sbg_float(ctx)
+    mon.monitor_pi_valve_family(ctx)
     mon.monitor_t_outlet_witness(ctx)
     mon.monitors(ctx)
     tm.append(time.time())
